@@ -9,10 +9,16 @@ from harness.core import Failure, Result
 
 MANIFEST = dict(
     design_ref="DESIGN.md §6 C07",
-    text="Coq theorem C07_no_crash over EVERY action list of the pipeline model (any operations incl. on entries that left "
-         "the tree, any read cuts, any add_watch failures): the reader never raises; lock-step correspondence on the real "
-         "kernel with fault injection at inotify_add_watch; oracle: no library thread dies, a final probe in the root is "
-         "reported, root deletion yields exactly one DirDeleted(root) and a clean stop.",
+    text="Coq theorems over EVERY action list of the pipeline model (any operations incl. on entries that left the tree, any "
+         "read cuts, any add_watch failures): C07_no_crash - the reader never raises; C07_root_alive - as long as no operation "
+         "removes or renames the root, the kernel keeps watching the root's inode under a descriptor the reader maps to the "
+         "root's true path and no stale entry shares it (also in the stale-bookkeeping states of the known findings), so records "
+         "about entries of the root are handed on under root/<name> (C07_root_probe); C07_root_deleted_event, "
+         "C07_stopped_is_silent. Lock-step correspondence on the real kernel (raw records, reader book-keeping after every read, "
+         "queued events) with fault injection at inotify_add_watch; oracle: no library thread dies, a final probe in the root is "
+         "reported, root deletion yields exactly one DirDeleted(root) and a clean stop. API-call part: random client programs "
+         "(calls from API threads and from callbacks) on a real BaseObserver under the deterministic scheduler, lock-step with the "
+         "Observer model; oracle: no library thread ends with an unhandled error.",
     note="Trusted: as C01; transient lookup failures are modelled as failing inotify_add_watch calls at chosen call indices; "
          "the polling emitter's root deletion is covered by C10.",
     technique="Coq proof (invariant: every queued kernel event's wd is known to the reader) + lock-step correspondence with fault injection + liveness probe oracle",
@@ -188,11 +194,37 @@ def run(ctx) -> Result:
         else:
             one(ctx, res, hist, cfg, batch)
     pipecheck.check_model(res, "C07", batch)
+    api_calls(ctx, res)
     return res
+
+
+def judge_api(prog, s):
+    """No sequence of API calls makes a library thread end with an unhandled error (client calls that raise are
+    caught and logged by the harness: only threads of the library can show up here)."""
+    bad = [("api-calls-thread-died", f"thread {n} ended with {type(e).__name__}: {e}", {"exception": type(e).__name__})
+           for n, e in s.uncaught()]
+    ev = s.events
+    removing = sorted({e[3][0] for e in ev if e[1] == "call" and e[3][0] in ("unschedule", "unschedule_all", "remove", "stop")})
+    key = [removing, sum(1 for e in ev if e[1] == "cb") > 0] if removing and any(e[1] == "put" for e in ev) else None
+    return bad, key
+
+
+def api_calls(ctx, res: Result):
+    """Random client programs (schedule/unschedule/add/remove/unschedule_all/start/stop from API threads and from inside
+    callbacks, events still queued for watches that are being removed) under the deterministic scheduler."""
+    from harness import obsprog as op
+    rng = ctx.rng("api")
+    n = 120 if not ctx.thorough else 900
+    progs = [op.gen_cohandler_program(rng) if i % 4 == 0 else op.gen_program(rng, reentrant=rng.random() < 0.6) for i in range(n)]
+    op.campaign(ctx, res, "C07", [p for p in progs if op.n_starts(p) <= 1], judge_api, n_random=2, tag="api")
+    res.notes.append("API-call part: " + op.LOCKSTEP_NOTE)
 
 
 def replay(ctx, obj) -> int:
     case = obj.get("case", obj)
+    if "prog" in case:
+        from harness import obsprog as op
+        return op.replay_generic(ctx, obj, [judge_api])
     res = Result()
     batch = []
     one(ctx, res, case["history"], (case["recursive"], case["full_events"], case["path_kind"]), batch,
